@@ -182,9 +182,37 @@ def sim(case):
 class P(Prop):
     id = "C14"
     design_ref = "DESIGN.md section 5, C14"
-    theorems = []
-    partial = []
-    open_statements = []
+    M = "TracklibVerif.Props.C14"
+    theorems = [
+        (M, "TV.C14.pyth_realTrig", "Real.sin/Real.cos satisfy sin^2+cos^2=1, the only hypothesis of the local-frame theorems"),
+        (M, "TV.C14.enu_ecef_inverse", "ECEF->ENU and ENU->ECEF are inverse to each other in both orders, for every base (orthogonal rotation)"),
+        (M, "TV.C14.base_is_origin", "the local coordinates of the base itself are (0,0,0) (ECEF or Geo base, any trig functions)"),
+        (M, "TV.C14.ecef_closed_form", "GeoCoords.toECEFCoords is the closed-form WGS84 formula with a=6378137, f=1/298.257223563, e^2=f(2-f)"),
+        (M, "TV.C14.on_ellipsoid", "h = 0 => X^2/a^2 + Y^2/a^2 + Z^2/b^2 = 1 with b = a(1-f)"),
+        (M, "TV.C14.height_along_normal", "the position is the foot point plus h times the unit normal of the ellipsoid at the foot point"),
+        (M, "TV.C14.lon_recovered", "Geo->ECEF->Geo returns the longitude exactly for lon in (-180,180], |lat| < 90, h > -6378137"),
+        (M, "TV.C14.geo_ecef_geo_partial", "on the ellipsoid (h = 0) Geo->ECEF->Geo is the identity (Bowring's formula is exact there)"),
+        (M, "TV.C14.geo_enu_geo_reduces", "Geo->ENU->Geo equals Geo->ECEF->Geo and Geo->ENU->ECEF equals Geo->ECEF, for every base"),
+        (M, "TV.C14.geo_enu_geo_partial", "on the ellipsoid Geo->ENU->Geo is the identity for every base"),
+        (M, "TV.C14.enu_rebase", "ENU(b1)->ENU(b2)->ENU(b1) and ENU(b)->ENU(b) are the identity; rebasing then Geo equals Geo directly"),
+        (M, "TV.C14.track_records_base", "Track.toENUCoords converts every position with the base and records base.toGeoCoords(); default base = first observation"),
+        (M, "TV.C14.track_round_trip", "whole-track ECEF->ENU->ECEF is the identity; Geo->ENU->ECEF/Geo through the recorded GeoCoords base equals the direct conversion"),
+        (M, "TV.C14.lambert_round_trip_partial", "Lambert-93 forward then inverse: longitude and isometric latitude exact; the original latitude is a fixed point of the loop body"),
+    ]
+    partial = [
+        "geo_ecef_geo_partial / geo_enu_geo_partial: proved for h = 0 (and the longitude for every h, lon_recovered); missing: latitude and height "
+        "for h != 0, where ECEFCoords.toGeoCoords (Bowring, one step) is an approximation with no exact identity (about 1.3e-6 m at 10 km)",
+        "lambert_round_trip_partial: longitude, isometric latitude and the fixed-point property are exact; missing: that 10 passes of the "
+        "loop started at 2 atan(exp L) - pi/2 end within 1e-9 degree of the fixed point",
+    ]
+    open_statements = [
+        "|lat' - lat| <= 1e-9 deg and |h' - h| <= 1 mm for Geo->ECEF->Geo with -1000 <= h <= 10000, h != 0 (needs verified interval analysis of "
+        "sin, cos, atan2, sqrt): covered by correspondence + transfer only",
+        "convergence of the 10 Lambert passes to 1e-9 deg: correspondence + transfer only",
+        "IEEE rounding of every formula (theorems are over the reals): transfer only",
+        "whole-track round trip through the recorded base when the base was given as ECEFCoords: false as an exact statement (the recorded "
+        "base is the closed-form inverse of it) and beyond 1e-9 deg next to the poles: the known finding",
+    ]
     modelled = ("obs_coords.py: GeoCoords.toECEFCoords/toENUCoords (STANDARD_PROJ == 1 branch)/toProjCoords, ECEFCoords.toGeoCoords/"
                 "toENUCoords, ENUCoords.toECEFCoords/toGeoCoords/toENUCoords, _proj/_unproj dispatch, _projToLambert93, "
                 "__projFromLambert93 (10 fixed-point passes), constants Re Fe; track.py: Track.toECEFCoords/toENUCoords/"
